@@ -316,11 +316,7 @@ func (o *cmC05) agree(m *chainMachine, post *cmSnap, what string) {
 		if p.State != etypes.PaymentOpen || p.AccountID.Scope != dtypes.EscrowScope {
 			continue
 		}
-		lid, ok := mtypes.LeaseIDFromEscrowAccount(p.AccountID, p.PaymentID)
-		if !ok {
-			m.fatalf("c05-payment-unmapped", "after %s: open payment %s does not map to a lease id", what, cmPayKey(p))
-		}
-		if l, ok := post.lease(lid); !ok || l.State != mtypes.LeaseActive {
+		if l, ok := post.leaseOfPayment(p.AccountID, p.PaymentID); !ok || l.State != mtypes.LeaseActive {
 			m.fatalf("c05-payment-without-lease", "after %s: payment %s is open but there is no active lease for it", what, cmPayKey(p))
 		}
 	}
@@ -354,8 +350,7 @@ func (o *cmC05) agree(m *chainMachine, post *cmSnap, what string) {
 		}
 		switch a.ID.Scope {
 		case dtypes.EscrowScope:
-			id, ok := dtypes.DeploymentIDFromEscrowAccount(a.ID)
-			if d, found := post.deployment(id); !ok || !found || d.State != dtypes.DeploymentActive {
+			if d, found := post.deploymentOfAccount(a.ID); !found || d.State != dtypes.DeploymentActive {
 				m.fatalf("c05-account-without-deployment", "after %s: escrow account %s is open without an active deployment", what, cmAccKey(a.ID))
 			}
 		case "bid":
